@@ -14,7 +14,7 @@ RULE = ('one real ActiveObject whose capacity for tracked timed sources is 2-4 (
         'periods from a small set); the new timer thread and the caller are interleaved by the seeded scheduler (PCT lets the '
         'new thread run first; bytecode granularity inside __post_event and the timer body). Oracle: the extra call raises '
         'ActiveObjectOutOfPostedEventResources; the rejected source\'s event never reaches the queue over the whole horizon; '
-        'the tracked sources keep posting on their calendars; second stratum: one or no slot is free and 2-3 threads make a timed post at the same instant - at most as many as there are free slots may be accepted. Non-trivial = every run (a rejection happens in each); distinct = '
+        'the tracked sources keep posting on their calendars; second stratum: one or no slot is free and 2-3 threads make a timed post at the same instant - at most as many as there are free slots may be accepted (in part of the runs one more thread cancels a tracked source at that instant, which frees one more slot, and the stream the rejection writes the table to may be slow). Non-trivial = every run (a rejection happens in each); distinct = '
         'distinct (capacity, deferred flag, kind, interleaving signature of the rejected call) tuples.')
 ASSUMPTIONS = ['virtual time; horizon 3-8 periods']
 PROBES = ['rejected_post']
@@ -38,8 +38,17 @@ def generate_concurrent(rng):
   clients = [c0] + [[['barrier', n]] for _ in range(n - 1)]
   for k in range(n):
     clients[k].append(['timed', 0, rng.choice(['fifo', 'lifo']), 'TX', p * rng.choice([0.5, 1, 3]), rng.choice([0, 1, 3]), rng.choice([False, False, True, None]), 100 + k])
+  cancel = cap - free > 0 and rng.random() < 0.4
+  if cancel:
+    # one more thread cancels a tracked source at the same instant: the table changes while posts are being rejected
+    for c in clients:
+      for o in c:
+        if o[0] == 'barrier':
+          o[1] = n + 1
+    clients.append([['barrier', n + 1], ['cancel_event', 0, 0, 0, rng.choice(['same', 'copy'])]])
   return {'objects': aw.default_objects(1), 'queue_size': cap, 'clients': clients, 'horizon_s': p * rng.randrange(3, 9) + 2 * p,
-          'stratum': 'concurrent-extra', 'free': free,
+          'stratum': 'concurrent-extra', 'free': free, 'cancel': cancel,
+          'slow_stdout': rng.choice([0, 0, 20, 60, 200]) if cancel else 0,
           'sched': common.draw_sched(rng, grans=('line', 'opcode'), weights=(1, 2), expected_steps=1500, policies=('sticky', 'pct'))}
 
 
@@ -52,10 +61,11 @@ def judge_concurrent(sc, run, sim, res):
   accepted = [s for s in group if not s['rejected']]
   sim.probe('rejected_post')
   res.nontrivial.append(hash(('concurrent', cap, free, len(group), sim.switch_signature())))
-  if len(accepted) > free:
+  cancelled = 1 if sc.get('cancel') else 0
+  if len(accepted) > free + cancelled:
     res.violate('extra-source-accepted', {'concurrent': True},
-                '%d sources were tracked (capacity %d) and %d threads made a timed post at the same time: %d were accepted, only %d slot(s) were free' % (
-                  cap - free, cap, len(group), len(accepted), free))
+                '%d sources were tracked (capacity %d) and %d threads made a timed post at the same time%s: %d were accepted, only %d slot(s) were free' % (
+                  cap - free, cap, len(group), ' while one tracked source was cancelled' if cancelled else '', len(accepted), free + cancelled))
     return
   if len(accepted) < free:
     res.violate('tracked-source-rejected', {'concurrent': True}, 'a slot was free but all %d concurrent timed posts were rejected' % len(group))
@@ -77,6 +87,8 @@ def judge_concurrent(sc, run, sim, res):
     else:
       inst = [g[3] for g in appends.get(s['uid'], [])]
       cal = calendar(s, hor_us)
+      if cancelled and s['slot'] == 0:
+        continue     # the cancelled source: when it stops is C11's subject
       if inst != cal:
         res.violate('tracked-source-disturbed', {'concurrent': True}, '%s posted at %s instead of %s' % (desc, [i / 1e6 for i in inst[:10]], [c / 1e6 for c in cal[:10]]))
         return
@@ -116,6 +128,8 @@ def shrink_candidates(sc):
   if sc.get('stratum') == 'concurrent-extra':
     if sc['sched'].get('gran') == 'opcode':
       yield dict(sc, sched=dict(sc['sched'], gran='line'))
+    if sc.get('slow_stdout'):
+      yield dict(sc, slow_stdout=0)
     return
   s = sc['clients'][0]
   extras = [j for j, o in enumerate(s) if o[0] == 'timed' and o[3] == 'TX']
@@ -130,7 +144,10 @@ def shrink_candidates(sc):
 
 def execute(sc, sched):
   res = RunResult()
-  run, sim, reason = aw.run_ao(sc, sched, max_steps=400000, horizon_s=sc['horizon_s'])
+  def faults(sim):
+    if sc.get('slow_stdout'):
+      sim.slow_stdout = sc['slow_stdout']     # the stream the rejection writes the table to is slow
+  run, sim, reason = aw.run_ao(sc, sched, max_steps=400000, horizon_s=sc['horizon_s'], before_run=faults)
   try:
     ok = ac.base_judge(run, sim, reason, res)
     if ok and reason not in ('quiescent', 'horizon'):
